@@ -246,7 +246,11 @@ fn c04_ws_client(case: &Case) {
                 srv_case.cover("reply_order(k<=6; 1+2+6+24+120+720=873 orders)", format!("{}:{}", answered.len(), perm.join("")));
             }
         });
-        let client = match WebSocketClient::connect(&format!("ws://{addr}/repe")).await {
+        // sometimes the client has an assumed peer frame limit and one batch entry exceeds it:
+        // that entry fails locally, every other entry keeps its position
+        let oversize_slot: Option<usize> = if batch_n >= 2 && simkernel::choose(3) == 0 { Some(simkernel::choose(batch_n) as usize) } else { None };
+        let limits = if oversize_slot.is_some() { repe::WebSocketLimits::default().with_assumed_peer_frame_limit(Some(4096)) } else { repe::WebSocketLimits::default() };
+        let client = match WebSocketClient::connect_with_limits(&format!("ws://{addr}/repe"), limits).await {
             Ok(c) => c,
             Err(e) => {
                 case.harness_error(format!("connect failed: {e}"));
@@ -262,7 +266,12 @@ fn c04_ws_client(case: &Case) {
             let plan: Vec<(CallKind, u64)> = (0..calls_each)
                 .map(|_| {
                     token += 1;
-                    (draw_kind(), token)
+                    let k = match draw_kind() {
+                        // (ordinary callers stay below the peer limit when one is configured)
+                        CallKind::Raw(n) if oversize_slot.is_some() && n > 3000 => CallKind::Raw(300),
+                        k => k,
+                    };
+                    (k, token)
                 })
                 .collect();
             hs.push(tokio::spawn(async move {
@@ -279,7 +288,7 @@ fn c04_ws_client(case: &Case) {
             let reqs: Vec<(String, Value)> = (0..batch_n)
                 .map(|i| {
                     token += 1;
-                    (format!("/echo/b{i}"), token_value(token))
+                    if oversize_slot == Some(i as usize) { (format!("/echo/b{i}"), json!({"t": token, "pad": "x".repeat(6000)})) } else { (format!("/echo/b{i}"), token_value(token)) }
                 })
                 .collect();
             let expect: Vec<Value> = reqs.iter().map(|r| r.1.clone()).collect();
@@ -293,6 +302,11 @@ fn c04_ws_client(case: &Case) {
                     return;
                 }
                 for (i, (got, want)) in out.iter().zip(expect.iter()).enumerate() {
+                    if oversize_slot == Some(i) {
+                        case.probe("batch_entry_over_the_peer_limit");
+                        case.check(matches!(got, Err(RepeError::MessageTooLarge { .. })), "batch-misaligned", || format!("batch slot {i} holds the request over the peer limit but returned {:?}", got.as_ref().map(|v| v.to_string().len()).map_err(|e| e.to_string())));
+                        continue;
+                    }
                     match got {
                         Ok(v) if v == want => {}
                         Ok(v) => case.fail("batch-misaligned", format!("batch slot {i}: got {v}, want {want}")),
